@@ -4,5 +4,8 @@
 cd "$(dirname "$0")"
 export GOFLAGS=-mod=mod GOPROXY=off GOSUMDB=off GOTOOLCHAIN=local CGO_ENABLED=0
 [ -x bin/govc ] && [ -z "$(find govc spec -newer bin/govc -name '*.go' 2>/dev/null | head -1)" ] || ./setup.sh >&2 || exit 2
+# result cache of the unwinding families (keyed by the hash of /repo's sources): drop entries of
+# trees not seen for a day
+find build/cache -type f -mtime +0 -delete 2>/dev/null
 id=$1; shift
 exec ./bin/govc check "$@" "$id"
